@@ -91,7 +91,7 @@ theorem parseOne_frame_length {sizeOf ok buf f rest} (h : parseOne sizeOf ok buf
   simp only [List.length_drop]
   omega
 
-/-! ### push: the server's `dataReceived` loop (factory.py:106-124) -/
+/-! ### push: the server's `dataReceived` loop (factory.py:99-128, `_parse_message` 139-150) -/
 
 structure Drained where
   frames : List Bytes      -- messages handed to the handler, in order
@@ -273,7 +273,7 @@ inductive Ev where
 
 /-- `handle_netqasm_message` under `current_protocol = c`.  `async f`: the handler suspends on
 the virtual node (decided by the environment); otherwise it runs to `_mark_message_finished`
-at once.  The reply goes to the protocol in the handler's context (qnodeos.py:48-52). -/
+at once.  The reply goes to the protocol in the handler's context (factory.py:53, 118-122; qnodeos.py:47-52). -/
 def Node.handle (async : Bytes → Bool) (c : Nat) (s : Node) (f : Bytes) : Node :=
   let s := { s with handled := s.handled ++ [(c, f)] }
   if async f then { s with pending := s.pending ++ [(c, f)] }
@@ -309,7 +309,7 @@ def dataFor (c : Nat) : List Ev → List Bytes
   | .data c' chunk :: evs => if c' = c then chunk :: dataFor c evs else dataFor c evs
   | _ :: evs => dataFor c evs
 
-/-! ### instance 2: node → host return messages (connection.py:220-264) -/
+/-! ### instance 2: node → host return messages (connection.py:220-264: `_read_more_data`, `_handle_reply`) -/
 
 /-- ctypes sizes of netqasm's return messages, read at run time -/
 structure RetSizes where
@@ -333,14 +333,13 @@ structure RetSizes.WF (z : RetSizes) : Prop where
 def retSize (z : RetSizes) (buf : Bytes) : Option Nat :=
   match buf with
   | [] => none
-  | t :: _ =>
-    if t = 0 then some z.done
-    else if t = 1 then some z.err
-    else if t = 3 then some z.reg
-    else if t = 2 then
-      if buf.length < z.arrHdr then none
-      else some (z.arrHdr + z.arrEntry * rdLE ((buf.drop z.arrLenOff).take 4))
-    else none        -- unknown type: `ValueError`, which `_handle_reply` takes for "incomplete"
+  | 0 :: _ => some z.done
+  | 1 :: _ => some z.err
+  | 3 :: _ => some z.reg
+  | 2 :: _ =>
+    if buf.length < z.arrHdr then none
+    else some (z.arrHdr + z.arrEntry * rdLE ((buf.drop z.arrLenOff).take 4))
+  | _ :: _ => none   -- unknown type: `ValueError`, which `_handle_reply` takes for "incomplete"
 
 def isDone (f : Bytes) : Bool := f.head? == some 0
 def isErr (f : Bytes) : Bool := f.head? == some 1
